@@ -6,7 +6,7 @@ Property theorems only (helper lemmas: `Proofs/BrokerFanout*.lean`).  Model:
 `Model/Topics.lean` and its finished theorems (`Properties/C06.lean`);
 specification: `Spec/Match.lean` (section 4.7).
 -/
-import Mqtt.Proofs.BrokerFanoutGen
+import Mqtt.Proofs.BrokerFanoutHistory
 
 set_option linter.unusedSimpArgs false
 
@@ -153,6 +153,49 @@ theorem C01_nobody_else_partial (b : B) (p : Pub) (held : List Mqtt.Spec.Broker.
   obtain ⟨h, hm, rfl⟩ := List.mem_map.mp this
   obtain ⟨hm1, hm2⟩ := List.mem_filter.mp hm
   exact ⟨h, hm1, hm2, target_delivery p h.owner h.qos⟩
+
+/-! ### after any history of subscribe / unsubscribe / publish steps -/
+
+/-- Histories.  Start from any state satisfying the invariant whose trie holds
+the subscriptions `held` (for instance the initial state and `[]`), and run ANY
+sequence of events that neither begin nor end a connection, with good filters
+in every SUBSCRIBE / UNSUBSCRIBE / in-process Subscribe / Unsubscribe
+(`heldOk`).  `heldRun` is the specification's bookkeeping over that sequence
+(`Spec.Broker.step1`'s `held` component: granted filters added in request
+order, listed filters removed).  Then a decoded PUBLISH on a good valid name is
+handed to exactly the reachable owners of the subscriptions held at that
+moment whose filter matches, once per subscription, at QoS min(publish QoS,
+granted QoS), same topic, identical payload - and to nobody else. -/
+theorem C01_after_history_partial (b : B) (held : List Mqtt.Spec.Broker.Held) (es : List Ev)
+    (hinv : Inv b) (hh : HeldInv b.topics.sroot held) (hok : ∀ e ∈ es, heldOk e = true)
+    (p : Pub) (hg : good p.topic = true) (hn : validName p.topic = true) (hq : p.qos ≤ 2)
+    (hid : p.pktid ≠ 0 ∨ p.qos = 0) :
+    ((onPublish (run b es).1 ⟨p, false⟩).2.2.1.map dropCallRetain).Perm
+      (((heldRun b held es).filter (fun h => topicMatches h.filter p.topic && reachable (run b es).1 h.owner)).map
+        (fun h => dropCallRetain (delivery p h.owner h.qos))) := by
+  obtain ⟨hinv', hh'⟩ := held_run es b held hinv hh hok
+  refine (C01_publish_reaches_reachable_partial _ p hinv' hg hn hq hid).2.trans ?_
+  refine ((hh'.perm.filter _).map _).trans ?_
+  rw [List.filter_map, List.map_map]
+  exact List.Perm.refl _
+
+/-- non-vacuity: from the initial state - two connections (registered first),
+then subscriptions, an unsubscription, a rejected filter, an in-process
+subscriber, traffic -/
+example :
+    let b0 := (run {} [exConnect 1 [97], exConnect 2 [98]]).1
+    let es : List Ev := [.packet 1 (.subscribe 1 [([97, 47, 43], 1), ([97, 47, 35, 47, 120], 1)]),
+                         .packet 2 (.subscribe 1 [([35], 2)]), .srvSub 1000 [97, 47, 98] 0,
+                         .packet 2 (.publish { qos := 0, topic := [120], payload := [] }),
+                         .packet 1 (.subscribe 2 [([97, 47, 98], 2)]),
+                         .packet 1 (.unsubscribe 3 [[97, 47, 43]]), .packet 1 .pingreq]
+    (∀ e ∈ es, heldOk e = true) ∧
+    heldRun b0 [] es = [⟨2, [35], 2⟩, ⟨1000, [97, 47, 98], 0⟩, ⟨1, [97, 47, 98], 2⟩] ∧
+    (onPublish (run b0 es).1 ⟨{ qos := 1, topic := [97, 47, 98], pktid := 8, payload := [5] }, false⟩).2.2.1 =
+      [.call 1000 { qos := 0, topic := [97, 47, 98], pktid := 8, payload := [5] },
+       .send 1 (.publish { qos := 1, topic := [97, 47, 98], pktid := 8, payload := [5] }),
+       .send 2 (.publish { qos := 1, topic := [97, 47, 98], pktid := 8, payload := [5] })] := by
+  decide
 
 /-! ### ... until the end of the connection -/
 
